@@ -554,6 +554,7 @@ def runSE23 (dbg : Bool) (op : String) (mask : Nat) (args : List K) (ints : List
   match op, ints with
   | "generator", [i] => if args.isEmpty then some (genFromTable Generated.SE23GenTable Generated.SE23GenErr i) else none
   | "vee", [] => if args.length == 25 then some (.ok (SE23T.vee args).toList) else none
+  | "ctor_iso", [] => if args.length == 19 then some ((SE23.ofIsometry dbg args).map SE23.toList) else none
   | _, _ =>
   match se23Codec.gOf (args.take 10), se23Codec.tOf (args.take 9) with
   | some X, _ =>
@@ -624,6 +625,7 @@ def runSGal3 (dbg : Bool) (op : String) (mask : Nat) (args : List K) (ints : Lis
   match op, ints with
   | "generator", [i] => if args.isEmpty then some (genFromTable Generated.SGal3GenTable Generated.SGal3GenErr i) else none
   | "vee", [] => if args.length == 25 then some (.ok (SGal3T.vee args).toList) else none
+  | "ctor_iso", [] => if args.length == 20 then some ((SGal3.ofIsometry dbg args).map SGal3.toList) else none
   | _, _ =>
   match sgal3Codec.gOf (args.take 11), sgal3Codec.tOf (args.take 10) with
   | some X, _ =>
